@@ -21,6 +21,29 @@ from proxyprotocol.sock import SocketInfoLocal  # noqa: E402
 __all__ = ['VLoop', 'GateWriter', 'Conn', 'Sim', 'NoQuiescence']
 
 
+class CountingExecutor(__import__('concurrent.futures').futures.ThreadPoolExecutor):
+    """ThreadPoolExecutor that knows how many jobs are in flight, so that
+    Sim.settle() can wait for a threaded backend."""
+
+    def __init__(self, max_workers: int = 4) -> None:
+        super().__init__(max_workers)
+        import threading
+        self._mu = threading.Lock()
+        self.inflight = 0
+        self.waited = 0.0
+
+    def submit(self, fn: Any, /, *args: Any, **kwargs: Any) -> Any:
+        with self._mu:
+            self.inflight += 1
+        fut = super().submit(fn, *args, **kwargs)
+        fut.add_done_callback(self._done)
+        return fut
+
+    def _done(self, fut: Any) -> None:
+        with self._mu:
+            self.inflight -= 1
+
+
 class NoQuiescence(Exception):
     """The loop did not become idle within the step budget."""
 
@@ -191,6 +214,17 @@ class Sim:
                 raise NoQuiescence(n)
             if loop._ready:  # type: ignore[attr-defined]
                 continue
+            ex = getattr(self, 'executor', None)
+            if ex is not None and ex.inflight:
+                # threaded backend: work is running in an executor thread;
+                # its completion arrives through call_soon_threadsafe
+                import time as _time
+                if ex.waited > 120.0:
+                    raise NoQuiescence(n)
+                _time.sleep(0.0005)
+                ex.waited += 0.0005
+                n -= 1
+                continue
             when = self._next_timer()
             if when is not None and when <= loop._vt:
                 continue
@@ -213,7 +247,15 @@ class Sim:
         reader = asyncio.StreamReader(limit=2 ** 16, loop=self.loop)
         writer = GateWriter(peer)
         coro, state = factory(reader, writer, SocketInfoLocal(writer))
-        task = self.loop.create_task(coro)
+        # pymap.main applies the config to the context variables before any
+        # service starts; do the same for this connection only (the harness
+        # process runs many configurations one after another)
+        import contextvars
+        ctx = contextvars.copy_context()
+        cfg = getattr(self, 'config', None)
+        if cfg is not None and getattr(self, 'executor', None) is not None:
+            ctx.run(cfg.apply_context)
+        task = self.loop.create_task(coro, context=ctx)
         conn = Conn(self, len(self.conns), reader, writer, task, state)
         self.conns.append(conn)
         if settle:
@@ -283,6 +325,9 @@ class Sim:
             except Exception:
                 pass
             loop.close()
+            ex = getattr(self, 'executor', None)
+            if ex is not None:
+                ex.shutdown(wait=True, cancel_futures=True)
 
     def __enter__(self) -> 'Sim':
         return self
